@@ -115,6 +115,42 @@ def run(run: core.Run) -> int:
         sets = c02.wf_filter(sets, drv, jobs)
         # (no input class is excluded: where the decompiled text itself is wrong - C02's business - no op correspondence
         # exists and only the per-entry clauses are evaluated)
+        # every eighth set: a single-line string parameter gets a character that str.splitlines() treats as a line boundary
+        # but that is not '\n' (U+2028, U+0085): the writers' line counter must count newlines only
+        import copy as _copy
+        for i, s_ in enumerate(sets):
+            if i % 8 != 3:
+                continue
+            cands = []
+            for r in s_["rs"]["ops"]:
+                for o in r:
+                    for p in o["params"]:
+                        if isinstance(p, dict) and "s" in p and "\n" not in p["s"] and p["s"]:
+                            cands.append(p)
+                        elif isinstance(p, dict) and "ls" in p:
+                            cands += [kv for kv in p["ls"] if kv[1] and "\n" not in kv[1]]
+            if cands:
+                s_["rs"] = _copy.deepcopy(s_["rs"])     # (do not touch sets shared with other lists)
+        for i, s_ in enumerate(sets):
+            if i % 8 != 3:
+                continue
+            done = False
+            for r in s_["rs"]["ops"]:
+                for o in r:
+                    for p in o["params"]:
+                        if done:
+                            break
+                        ch = run.rng.choice(["\u2028", "\x85"])
+                        if isinstance(p, dict) and "s" in p and p["s"] and "\n" not in p["s"]:
+                            p["s"] = p["s"][:1] + ch + p["s"][1:]
+                            done = True
+                        elif isinstance(p, dict) and "ls" in p:
+                            for kv in p["ls"]:
+                                if kv[1] and "\n" not in kv[1]:
+                                    kv[1] = kv[1][:1] + ch + kv[1][1:]
+                                    done = True
+                                    break
+            cnt["unicode_line_separator_in_string"] += int(done)
         args = [{"rs": s["rs"], "ssbs": False} for s in sets] + [{"rs": s["rs"], "ssbs": True} for s in sets[: len(sets) // 3]]
         chunks = [args[i:i + 8] for i in range(0, len(args), 8)]
         outs = pool.map("harness.props.c09:traced_many", chunks, timeout=60)
